@@ -78,8 +78,9 @@ def check_c09(prop, tier):
     res = common.Result(prop, tier)
     # ---- stream part: box with 1..K passes, flags after every action
     N = props_stream.BOUNDS[tier]
-    cfgs = D.box(N, tier)
-    res.bounds.update({"N_max": N, "configs": len(cfgs),
+    cfgs = props_stream.full_box(tier)
+    res.bounds.update({"N_max": N, "N_deep_layer": props_stream.DEEP[tier],
+                       "configs": len(cfgs),
                        "passes_max": 3 if tier == "quick" else 5})
     out = props_stream.merge_orders(
         D.run_box(cfgs, props_stream.make_reducer(prop), orders=2))
